@@ -113,11 +113,8 @@ def dispatch(repo: Repo, R, noret):
     missing = [w for w in want if w not in forms]
     R.check(not missing, rule, key_of(fs, "forms"), fs.site, f"export_save recognises target forms {forms}; documented SaveTarget forms {want}" + (f"; MISSING {missing}" if missing else ""),
             why="a documented save target form raises TypeError in the exporter")
-    modes = {}
-    for n in au.walk_no_nested(fs.node):
-        if isinstance(n, ast.If) and ast.unparse(n.test).startswith("save.targ == data.SaveMode."):
-            modes[ast.unparse(n.test).split(".")[-1]] = ast.unparse(n.body[-1])
-    ok = modes.get("ALL") == "mode = vsp.Save.SaveMode.ALL" and modes.get("NONE") == "mode = vsp.Save.SaveMode.NONE"
+    modes = _save_modes(fs)
+    ok = modes.get("ALL") == "vsp.Save.SaveMode.ALL" and modes.get("NONE") == "vsp.Save.SaveMode.NONE"
     R.check(ok, rule, key_of(fs, "modes"), fs.site, f"save modes: {modes}", why="Save(ALL) exports as NONE or vice versa")
     join = {k: v for k, v in forms.items() if k.startswith("list")}
     ok = forms.get("Signal") == "save.targ.name" and forms.get("str") == "save.targ" and forms.get("list[Signal]") in ("','.join((s.name for s in save.targ))", "','.join([s.name for s in save.targ])") and forms.get("list[str]") in ("','.join([s for s in save.targ])", "','.join(save.targ)")
@@ -136,29 +133,61 @@ def _chain_else_raises(fi: FuncInfo, noret) -> bool:
 
 
 def _save_forms(fs: FuncInfo) -> Dict[str, str]:
+    """{target form: exported payload}, read from what the function returns on each path: for every return and
+    every alternative of its value, the form is decided by the tests on `save.targ` that govern it (its class,
+    and for lists the class of all elements).  The shape of the dispatch (elif chain, guard clauses, nested ifs,
+    a local `signal` or direct returns, an extracted helper) does not matter."""
     forms: Dict[str, str] = {}
-    for n in au.walk_no_nested(fs.node):
-        if not isinstance(n, ast.If):
+    for r in shared.returns_of(fs.node):
+        if r.value is None:
             continue
-        t = ast.unparse(n.test)
-        val = None
-        for st in n.body:
-            if isinstance(st, ast.Assign) and ast.unparse(st.targets[0]) == "signal":
-                val = ast.unparse(st.value).replace('"', "'")
-        if t == "isinstance(save.targ, data.SaveMode)":
-            forms["SaveMode"] = "mode"
-        elif t == "isinstance(save.targ, Signal)":
-            forms["Signal"] = val
-        elif t == "isinstance(save.targ, str)":
-            forms["str"] = val
-        else:
-            m = pat.match("isinstance(save.targ, $L) and all($G)", n.test)
-            if m is not None and ast.unparse(m["L"]) in ("list", "(list, tuple)", "List") and isinstance(m["G"], (ast.GeneratorExp, ast.ListComp)):
-                g = m["G"]
-                mm = pat.match("isinstance($X, $T)", g.elt)
-                if mm is not None and len(g.generators) == 1 and ast.unparse(g.generators[0].iter) == "save.targ" and ast.unparse(g.generators[0].target) == ast.unparse(mm["X"]):
-                    forms[f"list[{ast.unparse(mm['T'])}]"] = val
+        for v, cds in shared.alternatives(fs.node, r.value, list(shared.path_conditions(fs.node, r))):
+            kinds = {"SaveMode", "Signal", "str", "list", "<other>"}
+            elem = None
+            for t, pol in cds:
+                t = shared.prov(fs.node, t)
+                tests = t.values if isinstance(t, ast.BoolOp) and isinstance(t.op, ast.And) and pol else [t]
+                for x in tests:
+                    rr = au.isinstance_classes(x) if isinstance(x, ast.Call) else None
+                    if rr is not None and ast.unparse(rr[0]) == "save.targ":
+                        ks = {ast.unparse(c).split(".")[-1].replace("List", "list") for c in rr[1]}
+                        kinds = (kinds & ks) if pol else (kinds - ks)
+                    m = pat.match("all($G)", x) if pol else None
+                    if m is not None and isinstance(m["G"], (ast.GeneratorExp, ast.ListComp)) and len(m["G"].generators) == 1 and ast.unparse(m["G"].generators[0].iter) == "save.targ":
+                        mm = pat.match("isinstance($X, $T)", m["G"].elt)
+                        if mm is not None and ast.unparse(m["G"].generators[0].target) == ast.unparse(mm["X"]):
+                            elem = ast.unparse(mm["T"])
+            if len(kinds) != 1:
+                continue
+            k = next(iter(kinds))
+            vv = shared.prov(fs.node, v)
+            ms = pat.match("vsp.Save(signal=$S)", vv)
+            mm_ = pat.match("vsp.Save(mode=$M)", vv)
+            if k == "SaveMode" and mm_ is not None:
+                forms["SaveMode"] = "mode"
+            elif k in ("Signal", "str") and ms is not None:
+                forms[k] = ast.unparse(ms["S"]).replace('"', "'")
+            elif k == "list" and elem is not None and ms is not None:
+                forms[f"list[{elem}]"] = ast.unparse(ms["S"]).replace('"', "'")
     return forms
+
+
+def _save_modes(fs: FuncInfo) -> Dict[str, str]:
+    """{SaveMode member tested: exported mode}."""
+    out: Dict[str, str] = {}
+    for r in shared.returns_of(fs.node):
+        if r.value is None:
+            continue
+        for v, cds in shared.alternatives(fs.node, r.value, list(shared.path_conditions(fs.node, r))):
+            mm_ = pat.match("vsp.Save(mode=$M)", shared.prov(fs.node, v))
+            if mm_ is None:
+                continue
+            for t, pol in cds:
+                m = pat.match("save.targ == data.SaveMode.$_", shared.prov(fs.node, t)) if False else None
+                tx = ast.unparse(shared.prov(fs.node, t))
+                if pol and tx.startswith("save.targ == data.SaveMode."):
+                    out[tx.split(".")[-1]] = ast.unparse(mm_["M"])
+    return out
 
 
 def isinstance_valid(repo: Repo, R):
@@ -260,7 +289,17 @@ def testbench(repo: Repo, R, noret):
             f"the testbench interface is checked (and failure raises) before the SimInput is built: {bool(before)}; SimInput(pkg=self.pkg, top=qualname(self.sim.tb)): {kw}",
             why="a module with several or bus ports is simulated as a testbench; or top names another module")
     ft = repo.func(F_SIMPROTO, "to_proto")
-    ok = bool(pat.find("module_to_proto([$I.tb for $I in inp])", ft.node)) and bool(pat.find("[SimProtoExporter(sim=$S, pkg=pkg).export() for $S in inp]", ft.node))
+    ok = False
+    for c1, b1 in shared.calls_matching(ft.node, "module_to_proto([$I.tb for $I in $L])"):
+        for c2 in [x for x in ast.walk(ft.node) if isinstance(x, ast.ListComp)]:
+            b2 = pat.match("[SimProtoExporter(sim=$S, pkg=$P).export() for $S in $L2]", shared.prov(ft.node, c2, depth=2))
+            if b2 is None:
+                continue
+            L1, L2 = ast.unparse(b1["L"]), ast.unparse(b2["L2"])
+            # both run over the same sequence of Sims: the argument itself, or the one-element list of it
+            lalts = {ast.unparse(v) for v, _c in shared.alternatives(ft.node, b1["L"], [])} if isinstance(b1["L"], ast.Name) else {L1}
+            pk = shared.prov_text(ft.node, b2["P"], depth=1)
+            ok = ok or (L1 == L2 and lalts <= {"inp", "[inp]"} and "module_to_proto(" in pk)
     R.check(ok, rule, key_of(ft), ft.site, f"all testbenches are co-exported into one package, then every Sim is exported against it, in order: {ok}", why="a testbench is exported twice (or not at all) when several Sims are exported together")
     fi = repo.func(F_SIMDATA, "is_tb")
     a = fi.node.args.args[0].arg
@@ -273,11 +312,20 @@ def testbench(repo: Repo, R, noret):
             return r is not None and ast.unparse(r[0]) == a
 
         def m_one(t):
-            s_ = ast.unparse(t)
-            return True if s_ in (f"len({a}.ports) == 1", f"1 == len({a}.ports)") else False
+            s_ = shared.prov_text(fi.node, t)
+            return True if s_ in (f"len({a}.ports) == 1", f"1 == len({a}.ports)", f"len(list({a}.ports.values())) == 1", f"len({a}.ports.values()) == 1") else False
+
+        # `(p,) = <the ports>` names the single element
+        unpack = {}
+        for st in au.stmts(fi.node):
+            if isinstance(st, ast.Assign) and len(st.targets) == 1 and isinstance(st.targets[0], (ast.Tuple, ast.List)) and len(st.targets[0].elts) == 1 and isinstance(st.targets[0].elts[0], ast.Name):
+                unpack[st.targets[0].elts[0].id] = ast.parse(f"({shared.prov_text(fi.node, st.value)})[0]", mode="eval").body
+
+        def norm_ret(v):
+            return ast.unparse(au.expand(shared.prov(fi.node, v), unpack)).replace(f"(list({a}.ports.values()))[0]", f"list({a}.ports.values())[0]")
 
         body = [st for st in fi.node.body if not (isinstance(st, ast.Expr) and isinstance(st.value, ast.Constant))]
-        tab = fde.decision_table(body, [("kind", m_kind), ("one", m_one)], ["<return>"], lambda v: shared.prov_text(fi.node, v), tolerant=True)
+        tab = fde.decision_table(body, [("kind", m_kind), ("one", m_one)], ["<return>"], norm_ret, tolerant=True)
         one = tab[(True, False)]["<return>"] == "False"
         scal = tab[(True, True)]["<return>"] in (f"list({a}.ports.values())[0].width == 1", f"next(iter({a}.ports.values())).width == 1")
     except fde.Unknown:
